@@ -40,7 +40,7 @@ SOFT_FILLS = ("nan", "neg", "zero", "huge")
 def generate(rng):
     prim = gen_primary(rng, "p0", kinds=STOCK_KINDS + ["TapePrimary"], dtypes=(None, None, "float32", "float64"))
     pkind = prim["kind"]
-    steps = rng.choice([2, 3, 4, 5, 6, 8, 11])
+    steps = rng.nsteps([2, 3, 4, 5, 6, 8, 11])
     d = gen_derivative(rng, "d0", prim, kinds=OPTION_KINDS + ["EuropeanForwardStartOption", "VarianceSwap"], steps=steps)
     derivs = [d]
     hedge = None
@@ -63,7 +63,7 @@ def generate(rng):
         models.append(m)
         hedgers.append(h)
     world = {"primaries": [prim], "derivatives": derivs, "models": models, "criteria": [], "hedgers": hedgers}
-    ops = [{"op": "simulate", "target": "d0", "n_paths": rng.choice([1, 2, 3, 5, 8]), "torch_seed": rng.seed31()}]
+    ops = [{"op": "simulate", "target": "d0", "n_paths": rng.npaths([1, 2, 3, 5, 8]), "torch_seed": rng.seed31()}]
     for _ in range(rng.randint(2, 8)):
         k = rng.wchoice([("online", 3), ("offline", 4), ("feature", 4), ("simulate", 1)])
         if k == "simulate":
